@@ -1,7 +1,7 @@
 (* The regenerated entry section / epilogue of aofshrink() are Model/Shrink.v's `request` /
    `end_rewrite` on the flag and the log; hence a refused AOFSHRINK changes nothing. *)
 From Coq Require Import String List Bool.
-From T38 Require Import Model.Shrink Gen.ShrinkEntry Model.ShrinkEntry Proofs.ShrinkProofs.
+From T38 Require Import Model.Shrink Gen.ShrinkEntry Gen.ShrinkFinal Model.ShrinkEntry Proofs.ShrinkProofs.
 Import ListNotations.
 Open Scope string_scope.
 
@@ -32,9 +32,12 @@ Proof. intros [l sh lg [|]]; vm_compute; reflexivity. Qed.
 Lemma epilogue_transcribed : forall b r, exec_section b epilogue_section r = Some (end_rewrite r).
 Proof. intros [|] [l sh lg [|]]; vm_compute; reflexivity. Qed.
 
-(* nothing else in the package assigns the flag or the log (writeAOF appends) *)
-Lemma state_writes_accounted : shrink_state_writes = expected_state_writes.
-Proof. vm_compute. reflexivity. Qed.
+(* nothing else in the package assigns the flag or the log (writeAOF appends), except a reset that
+   also makes the running rewrite give up before its file can become the log *)
+Lemma state_writes_accounted :
+  forallb (write_ok shrink_state_writes final_section) shrink_state_writes = true /\
+  forallb (fun w => in_list w shrink_state_writes) expected_state_writes = true.
+Proof. vm_compute. split; reflexivity. Qed.
 
 (* along a whole schedule of writes / rewrite steps / further requests: the log of the running rewrite
    holds, in order, every logged command accepted since it started — requests do not shorten it *)
